@@ -5,10 +5,10 @@
        characters, no empty path segment), and
      - the ABSENCE of every recorded refuted shape: each [shape_*] detector
        below corresponds to exactly one [refuted_*] theorem of Properties.v /
-       one known finding that is still open (D1, D3, D5, D7, D8, D10 and the
-       top-level mixed keys of an "imports" object, the rest of D4); D2, D4
-       (nested objects) and D12 were repaired in /repo (e3ac7b5, 4e82ea6,
-       6e6e7fa): the model follows the fixed code and their detectors are gone.
+       one known finding that is still open (D1, D3, D5, D7, D8, D10); D2, D4
+       (nested objects and the "imports" map) and D12 were repaired in /repo
+       (e3ac7b5, 4e82ea6, 9a0cc2e, 6e6e7fa): the model follows the fixed code and
+       their detectors are gone.
    [in_scope_*_split] (ScopeProofs.v) proves
      in_scope = documented && fragment && no refuted shape. *)
 From V Require Import Common.Base C11.Str C11.EsbuildResolve C11.NodeSpec C11.SortLemmas.
@@ -32,10 +32,6 @@ Definition shape_url_target (imp : bool) (t : str) : bool :=
 Fixpoint nodupb (l : list str) : bool :=
   match l with [] => true | x :: r => negb (mem_str x r) && nodupb r end.
 Definition shape_dup_key (kvs : list (str * json)) : bool := negb (nodupb (map fst kvs)).
-(* D4, what is left of it: the top-level object of "imports" must not mix keys
-   with and without a leading "." for esbuild; Node ignores the odd keys *)
-Definition shape_imports_top_mixed (j : json) : bool :=
-  match j with JObj kvs => negb (consistent_keys (map fst kvs)) | _ => false end.
 Definition shape_index_key (kvs : list (str * json)) : bool :=
   existsb (fun kv => is_array_index (fst kv)) kvs.
 (* D1: a pattern key whose base is the whole match key *)
@@ -102,7 +98,7 @@ Definition in_scope_exports (exports : json) (subpath : str) : bool :=
 
 Definition in_scope_imports (imports : json) (specifier : str) : bool :=
   match_key_ok specifier && json_ok true imports
-  && negb (shape_hash_slash specifier) && negb (shape_imports_top_mixed imports)
+  && negb (shape_hash_slash specifier)
   && top_keys (key_ok specifier) imports.
 
 (* ---- the three components ---- *)
@@ -112,7 +108,7 @@ Definition fragment_ok (j : json) (mk : str) : bool :=
   json_all fragment_target (fun _ => true) j && top_keys (key_fragment mk) j.
 Definition no_refuted_shape (imp : bool) (j : json) (mk : str) : bool :=
   negb (shape_star_specifier mk)
-  && negb (imp && shape_hash_slash mk) && negb (imp && shape_imports_top_mixed j)
+  && negb (imp && shape_hash_slash mk)
   && json_all (target_no_shape imp) obj_no_shape j
   && top_keys (key_no_shape mk) j.
 
